@@ -635,7 +635,8 @@ func (x *X) cutLoop(fr *frame, order []*ssa.BasicBlock, li *loopInfo) {
 	}
 	// a loop without contract in a function under contract: if no back edge can be
 	// taken from the entry state, the loop is its first (partial) pass and nothing is forgotten
-	if spec == nil && x.peel {
+	if spec == nil && x.peel && (len(phis) == 0 || loopValuesStayInside(fr.fn, li)) {
+		// (a loop with loop-carried variables that are used afterwards gains nothing from a first exact pass)
 		done, rest := x.peelLoop(fr, order, li, entry, entryVals, phis)
 		if done {
 			return
